@@ -202,7 +202,7 @@ def jwt_endpoint_tokens():
             out.append((kind, arg))
     import json as _json
     for hdr in ({"alg": "HS256", "crit": ['"x"']}, {"alg": "HS256", "crit": ["é"]}, {"alg": "HS256", "crit": ["b64"], "b64": False}, {"alg": "HS256", "crit": ["a\\b"], "a\\b": 1},
-                {"alg": "HS256", "crit": [5]}, {"alg": "HS256", "crit": "x"}, {"alg": "HS256", "kid": '"'}, {"alg": '"'}, {"alg": "HS256", "typ": '"'}):
+                {"alg": "HS256", "crit": [5]}, {"alg": "HS256", "crit": [["exp"]]}, {"alg": "HS256", "crit": [{}]}, {"alg": "HS256", "crit": [None]}, {"alg": "HS256", "crit": "x"}, {"alg": "HS256", "kid": '"'}, {"alg": '"'}, {"alg": "HS256", "typ": '"'}):
         for pl in (b'{"iss":"cj","sub":"cj"}', b'{"iss":"c1","sub":"1"}'):
             for kind in ("client_assertion", "jwt_bearer", "rfc9068"):
                 out.append((kind, b64(_json.dumps(hdr).encode()) + "." + b64(pl) + "." + b64(b"sig")))
@@ -421,7 +421,7 @@ def family_key(kty, form):
 
 
 HDR_MEMBERS = ["alg", "enc", "zip", "kid", "typ", "cty", "crit", "jwk", "jku", "x5c", "x5t", "epk", "apu", "apv", "iv", "tag", "p2s", "p2c", "b64", "skid"]
-HDR_VALUES = [5, None, [], {}, "", "é", True, 1.5, [1], {"a": 1}, ["x"], "A", "!!!"]
+HDR_VALUES = [5, None, [], {}, "", "é", True, 1.5, [1], {"a": 1}, ["x"], "A", "!!!", [["exp"]], [{}], [None], [True, "x"], {"a": ["b"]}]
 FUZZ_ALGS = {"jws": [("HS256", "oct"), ("RS256", "RSA"), ("PS256", "RSA"), ("ES256", "EC"), ("EdDSA", "OKP")],
              "jwe": [("dir", "oct16"), ("A128KW", "oct16"), ("A128GCMKW", "oct16"), ("RSA-OAEP", "RSA"), ("RSA1_5", "RSA"), ("ECDH-ES", "EC"), ("ECDH-ES+A128KW", "EC"),
                      ("ECDH-ES", "OKPX"), ("ECDH-ES+A128KW", "OKPX")]}
